@@ -320,3 +320,26 @@ def po_round(S):
         S.check(f"1e{e}:nearest", abs(r - x) * 2 <= step)
         S.check(f"1e{e}:ties-away-from-zero", abs(r - x) * 2 != step or abs(r) > abs(x))
         S.check(f"1e{e}:non-negative==floor(x/step+1/2)*step", x < 0 or r == math.floor(x / step + Decimal("0.5")) * step)
+
+
+@proof("C15", "get_trade_fee,get_deliver_fee/exact-on-the-Decimal-grid(bounded)", strength="B", config={"bounded_samples": {"quick": 400, "thorough": 8000}})
+def po_fee_grid(S):
+    """bounded stand-in for what the proof over the reals cannot see: the fee is ROUNDED, so it is a discrete outcome, and a re-arrangement
+    of the formula that is equal over the reals can land on the other side of a half fee step under Decimal arithmetic.  Whole contracts,
+    premiums on the 0.0001 price tick (sums of level price x size): fee == half-up(min(rate x n, 12.5 % x premium), 1e-6) computed exactly."""
+    from fractions import Fraction
+    from demeter import MarketInfo, MarketTypeEnum
+    from demeter.deribit import DeribitOptionMarket
+    m = DeribitOptionMarket(MarketInfo("opt", MarketTypeEnum.deribit_option), DeribitOptionMarket.ETH)
+    n = S.int("contracts", 1, 60)
+    ticks = S.int("premium_in_price_ticks", 1, 4000)          # premium = ticks x 0.0001 (cheap options: the 12.5 % cap binds)
+    premium = Decimal(ticks) / Decimal(10000)
+
+    def half_up_micro(x):
+        q = x * 10 ** 6
+        fl = q.numerator // q.denominator
+        return Fraction(fl + (1 if q - fl >= Fraction(1, 2) else 0), 10 ** 6)
+    want_t = half_up_micro(min(Fraction(3, 10000) * n, Fraction(1, 8) * Fraction(ticks, 10000)))
+    want_d = half_up_micro(min(Fraction(15, 100000) * n, Fraction(1, 8) * Fraction(ticks, 10000)))
+    S.check("trade-fee==half-up(min(0.03%*n,12.5%*premium),1e-6)", Fraction(m.get_trade_fee(Decimal(n), premium)) == want_t)
+    S.check("delivery-fee==half-up(min(0.015%*n,12.5%*value),1e-6)", Fraction(m.get_deliver_fee(Decimal(n), premium)) == want_d)
